@@ -376,6 +376,9 @@ class Replay:
         self.pure = {}
         self.fits = {}
         self.sig_counts = {}
+        self.outputs = []
+        self.record_outputs = False
+        self.caller_check = False
 
     def key(self, state):
         return json.dumps(state, sort_keys=True)
@@ -452,6 +455,13 @@ class Replay:
             if op in ("predict", "predict_expectations"):
                 self.stats["queries"] += 1
                 self.check_query(obj, twin, label, value, before, skey, skip)
+                if self.record_outputs:
+                    extra = b.extra_output(obj) if hasattr(b, "extra_output") else None
+                    self.outputs.append((self.stats["edges"], (op, self.canon(value), self.canon(extra) if extra is not None else None)))
+            if self.caller_check and op in ("fit", "partial_fit", "predict", "predict_expectations", "warm_start"):
+                changed = b.caller_changed() if hasattr(b, "caller_changed") else None
+                if changed:
+                    self.report("caller.modified", "%s modified an object passed by the caller: %s" % (op, changed), skey, label)
             if op == "fit" and "fresh" in self.checks:
                 self.check_fresh(obj, twin, edge, label, skey)
             known = self.objs.get(tkey)
@@ -486,6 +496,20 @@ class Replay:
                                 "two call sequences reach the same documented state but different objects: %s; other path %s"
                                 % ("; ".join(diff(a, c)), json.dumps(self.path(tkey))), skey, label)
         return self
+
+    def canon(self, value):
+        """Outputs with arm labels mapped back to specification labels (for comparisons across bindings)."""
+        b = self.b
+        def arm(a):
+            a = a.item() if hasattr(a, "item") else a
+            return b.inv.get(a, repr(a))
+        def one(v):
+            if isinstance(v, dict):
+                return [(arm(k), float(x)) for k, x in v.items()]
+            return arm(v)
+        if isinstance(value, list):
+            return [one(v) for v in value]
+        return one(value)
 
     # -- C17 ---------------------------------------------------------------
     def check_reject(self, obj, label, outcome, value, before_rng, skey):
